@@ -26,8 +26,9 @@
    role); readable: Pair a1 … an; optimized: n = 2 Pair a b, n = 3 Pair a (Pair b c),
    n >= 4 the sequence {a1; …; an}; legacy_optimized: nested binary Pairs.
 
-   Not modelled (no values; of_mich rejects, has_type is false): big_map, operation, ticket,
-   sapling_state, sapling_transaction, never — see docs/C11.md.
+   Tickets (ticket.py) are (ticketer, contents, amount), rendered as the comb pair address <contents> nat.
+   Not modelled (no values; of_mich rejects, has_type is false): big_map, operation,
+   sapling_state, sapling_transaction; never has no values — see docs/C11.md.
    Behaviour after the FIXLOG repairs #3 #10 #12 #38 #40 #43.  Left as it is (#41, not fixed):
    an address string with a bare trailing '%' is kept verbatim but forged like the bare address —
    such values are outside [has_type] (known finding C11/empty-entrypoint).  Definitions only. *)
@@ -69,7 +70,8 @@ Inductive val :=
 | VPair (a b : val)
 | VList (l : list val)                       (* list, set *)
 | VMap (l : list (val * val))
-| VLambda (code : node).
+| VLambda (code : node)
+| VTicket (a : address) (ep : option bytes) (item : val) (amount : Z).   (* ticketer, contents, amount *)
 
 (* structural equality *)
 Fixpoint val_eqb (x y : val) {struct x} : bool :=
@@ -106,6 +108,8 @@ Fixpoint val_eqb (x y : val) {struct x} : bool :=
          | _, _ => false
          end) l1 l2
   | VLambda a, VLambda b => node_eqb a b
+  | VTicket a e x z, VTicket b f y w =>
+      address_eqb a b && option_eqb bytes_eqb e f && val_eqb x y && Z.eqb z w
   | _, _ => false
   end.
 
@@ -273,6 +277,12 @@ Section Model.
     | _ => NPrim T_Pair args []
     end.
 
+  Definition addr_node (m : mode) (a : address) (ep : option bytes) : node :=
+    match m with
+    | Readable => NStr (addr_txt C a ++ ep_text ep)
+    | _ => NByt (forge_address false a ++ ep_bytes ep)
+    end.
+
   (* [tm m v] = (Micheline of v, the arguments v contributes when it is the right component
      of a pair: its own comb leaves if it is a pair, itself otherwise) *)
   Fixpoint tm (m : mode) (v : val) {struct v} : node * list node :=
@@ -293,11 +303,7 @@ Section Model.
               end)
     | VString s => leaf (NStr s)
     | VBytes b => leaf (NByt b)
-    | VAddr a ep =>
-        leaf (match m with
-              | Readable => NStr (addr_txt C a ++ ep_text ep)
-              | _ => NByt (forge_address false a ++ ep_bytes ep)
-              end)
+    | VAddr a ep => leaf (addr_node m a ep)
     | VKey k =>
         leaf (match m with Readable => NStr (key_txt C k) | _ => NByt (forge_public_key k) end)
     | VKeyHash a =>
@@ -327,6 +333,15 @@ Section Model.
                        | (k, x) :: r => NPrim T_Elt [fst (tm m k); fst (tm m x)] [] :: go r
                        end) l))
     | VLambda code => leaf code
+    | VTicket a ep x z =>
+        (* TicketType.to_comb(): the comb pair address <contents> nat; a ticket is not a PairType, so it is
+           never flattened into an enclosing comb *)
+        let na := addr_node m a ep in
+        let nx := fst (tm m x) in
+        leaf (match m with
+              | Readable => NPrim T_Pair [na; nx; NInt z] []
+              | _ => NPrim T_Pair [na; NPrim T_Pair [nx; NInt z] []] []
+              end)
     end.
 
   Definition to_mich (m : mode) (v : val) : node := fst (tm m v).
@@ -363,6 +378,22 @@ Section Model.
     match l with
     | [] => Ok []
     | x :: r => let* y := f x in let* ys := map_result f r in Ok (y :: ys)
+    end.
+
+  (* the arguments of a pair literal: Pair a1 ... an or the sequence {a1; ...; an} *)
+  Definition pair_args (n : node) : option (list node) :=
+    match n with
+    | NPrim tg args _ => if byte_eqb tg T_Pair then Some args else None
+    | NSeq args => Some args
+    | _ => None
+    end.
+
+  Definition ticket_of (va : result val) (vi : result val) (z : node) : result val :=
+    let* a := va in
+    let* i := vi in
+    match a, z with
+    | VAddr ad ep, NInt k => if (0 <=? k)%Z then Ok (VTicket ad ep i k) else Reject
+    | _, _ => Reject
     end.
 
   Fixpoint of_mich (t : ty) (n : node) {struct t} : result val :=
@@ -470,7 +501,18 @@ Section Model.
         | NSeq _ => let* c := lam_norm n in Ok (VLambda c)
         | _ => Reject
         end
-    | TNever | TBigMap _ _ | TOperation | TTicket _ | TSaplingState | TSaplingTx => Reject
+    | TTicket a =>
+        (* read at the type pair address a nat (PairType.from_micheline_value), then TicketType.from_comb *)
+        match pair_args n with
+        | Some [x; y] =>
+            match pair_args y with
+            | Some [i; z] => ticket_of (of_addr AnyAddress x) (of_mich a i) z
+            | _ => Reject
+            end
+        | Some [x; i; z] => ticket_of (of_addr AnyAddress x) (of_mich a i) z
+        | _ => Reject
+        end
+    | TNever | TBigMap _ _ | TOperation | TSaplingState | TSaplingTx => Reject
     end.
 
   (* ---- well-typed values *)
@@ -512,6 +554,7 @@ Section Model.
         forallb (fun e => has_type k (fst e) && has_type x (snd e)) l && sorted_strict (map fst l)
     | TLambda _ _, VLambda c =>
         match c with NSeq _ => result_eqb node_eqb (lam_norm c) (Ok c) | _ => false end
+    | TTicket a, VTicket ad ep x z => addr_ok AnyAddress ad ep && has_type a x && (0 <=? z)%Z
     | _, _ => false
     end.
 
